@@ -70,6 +70,8 @@ def run(ck):
                "TLC checks that every reported sum equals the total of the reported bin (OutputTypes.tla) and that each cheaper output equals what is derived from the "
                "full PartitionAndSumsTuple output (positionally for Sums); empty covers must fail rather than invent extremes. non-trivial = distinct input with >=2 items")
     run_pack_groups(ck, groups, {"C06"}, "C06 packers / covers: sums describe bins, 10 output types agree", chunk=5000)
+    from .. import magnitude
+    magnitude.run(ck, {"C06"}, 60 if q else 1500, objs=False)
     ck.assumptions += ["TLC / SANY / CommunityModules", "float sums are converted to exact integers (or flagged inexact) by the harness"]
 
 
